@@ -195,7 +195,7 @@ fn gen_cmd(args: &[String]) -> i32 {
         }
         Some("streamfiles") => {
             // lengths (and as-built inflate thresholds) of the real files behind MCTransport
-            let names = ["npy_ok", "npy_midvalue", "npy_short", "npy_header_cut", "npy_u1", "npy_i2", "npy_u1_short", "vcf", "vcf_gz", "bcf_raw", "bcf_gz", "empty", "w_text", "w_npy", "big_vcf", "big_vcf_gz", "big_bcf_gz", "vcf_gz_cut", "bcf_gz_cut", "bcf_raw_cut",
+            let names = ["npy_ok", "npy_midvalue", "npy_short", "npy_header_cut", "npy_u1", "npy_i2", "npy_u1_short", "npy_v2", "npy_v3", "vcf", "vcf_gz", "bcf_raw", "bcf_gz", "empty", "w_text", "w_npy", "big_vcf", "big_vcf_gz", "big_bcf_gz", "vcf_gz_cut", "bcf_gz_cut", "bcf_raw_cut",
                 "ps_text_small", "ps_npy_small", "ps_text_big", "ps_npy_big", "pp_text_small", "pp_npy_small", "pp_text_big", "pp_npy_big"];
             let v: Vec<Value> = names.iter().map(|n| {
                 let b = fam_stream::stream_file(n);
